@@ -88,3 +88,173 @@ def _blocks(fn):
             b = getattr(n, fld, None)
             if isinstance(b, list) and b and isinstance(b[0], ast.stmt):
                 yield b
+
+
+# ------------------------------------------------------------------------------------------
+# C08 / C12  regions.Region: arithmetic leaves and enumerated shape constants
+def _range_args(call):
+    if not (isinstance(call, ast.Call) and isinstance(call.func, ast.Name) and call.func.id == 'range'
+            and not call.keywords):
+        raise TranslateError(f"not a range(): {src(call)}")
+    return call.args
+
+
+def _one_for(fn, depth_ok=None):
+    fors = [n for n in ast.walk(fn) if isinstance(n, ast.For)]
+    return fors
+
+
+@point('Regions')
+def gen_regions(repo):
+    tree = parse_file(_p(repo, 'regions.py'))
+    R = lambda name: find_func(tree, name, cls='Region')  # noqa: E731
+    env = {'self.maxdepth': 'maxdepth', 'p': 'p', 'd': 'd', 'x': 'x'}
+    tr = Tr('Z', env)
+
+    # --- add_pixels: does it invalidate the cache (self.demoted = set()) ?
+    ap = R('add_pixels')
+    resets = [a for a in find_assigns(ap, 'self.demoted') if src(a.value) == 'set()']
+    others = [a for a in find_assigns(ap, 'self.demoted') if src(a.value) != 'set()']
+    if others:
+        raise TranslateError("add_pixels assigns self.demoted something other than set()")
+    upd = [n for n in ast.walk(ap) if isinstance(n, ast.Call) and src(n.func) == 'self.pixeldict[depth].update']
+    if len(upd) != 1 or src(upd[0].args[0]) not in ('set(pix)', 'pix'):
+        raise TranslateError("add_pixels: expected self.pixeldict[depth].update(set(pix))")
+    if resets:
+        # the reset must be unconditional (top level of the function body)
+        if not any(a in ap.body for a in resets):
+            raise TranslateError("add_pixels: cache reset is conditional")
+    add_resets = 'true' if resets else 'false'
+
+    # --- _demote_all: guard, loop range, children, cache assignment
+    dm = R('_demote_all')
+    body = strip_doc(dm.body)
+    if not (len(body) >= 1 and isinstance(body[0], ast.If) and src(body[0].test) == 'len(self.demoted) == 0'):
+        raise TranslateError("_demote_all: expected guard `if len(self.demoted) == 0`")
+    fors = [n for n in ast.walk(dm) if isinstance(n, ast.For)]
+    if len(fors) != 2:
+        raise TranslateError("_demote_all: expected two nested loops")
+    ra = _range_args(fors[0].iter)
+    if len(ra) != 2:
+        raise TranslateError("_demote_all: range")
+    dem_lo, dem_hi = tr.expr(ra[0]), tr.expr(ra[1])
+    upd = [n for n in ast.walk(dm) if isinstance(n, ast.Call) and src(n.func) == 'pd[d + 1].update']
+    if len(upd) != 1:
+        raise TranslateError("_demote_all: expected pd[d+1].update(...)")
+    arg = upd[0].args[0]
+    if isinstance(arg, ast.Call) and src(arg.func) == 'set':
+        arg = arg.args[0]
+    if not isinstance(arg, ast.Tuple):
+        raise TranslateError("_demote_all: children are not a tuple literal")
+    children = '[' + '; '.join(tr.expr(e) for e in arg.elts) + ']'
+    if src(one_assign(dm, 'pd[d]').value) != 'set()':
+        raise TranslateError("_demote_all: level not cleared")
+    cache_src = src(one_assign(dm, 'self.demoted').value)
+    if cache_src not in ('pd[self.maxdepth]', 'self.pixeldict[self.maxdepth]'):
+        raise TranslateError(f"_demote_all: cache is {cache_src}")
+
+    # --- _renorm: range, sibling test, membership tests, parent
+    rn = R('_renorm')
+    fors = [n for n in ast.walk(rn) if isinstance(n, ast.For)]
+    if len(fors) != 2:
+        raise TranslateError("_renorm: expected two nested loops")
+    ra = _range_args(fors[0].iter)
+    if len(ra) != 3 or src(ra[2]) != '-1':
+        raise TranslateError("_renorm: expected range(a, b, -1)")
+    ren_from, ren_stop = tr.expr(ra[0]), tr.expr(ra[1])
+    ifs = [n for n in ast.walk(fors[1]) if isinstance(n, ast.If)]
+    if len(ifs) != 2:
+        raise TranslateError("_renorm: expected two nested ifs")
+    sib_test = tr.cond(ifs[0].test)
+    t2 = ifs[1].test
+    if not (isinstance(t2, ast.BoolOp) and isinstance(t2.op, ast.And)):
+        raise TranslateError("_renorm: membership test is not a conjunction")
+    members = []
+    for v in t2.values:
+        if not (isinstance(v, ast.Compare) and len(v.ops) == 1 and isinstance(v.ops[0], ast.In)
+                and src(v.comparators[0]) == 'plist'):
+            raise TranslateError("_renorm: membership test")
+        members.append(tr.expr(v.left))
+    nset = one_assign(rn, 'nset').value
+    a = nset.args[0] if isinstance(nset, ast.Call) and src(nset.func) == 'set' else nset
+    if not isinstance(a, ast.Tuple):
+        raise TranslateError("_renorm: nset")
+    siblings = '[' + '; '.join(tr.expr(e) for e in a.elts) + ']'
+    addc = [n for n in ast.walk(rn) if isinstance(n, ast.Call) and src(n.func) == 'self.pixeldict[d - 1].add']
+    if len(addc) != 1:
+        raise TranslateError("_renorm: expected self.pixeldict[d-1].add(..)")
+    parent = tr.expr(addc[0].args[0])
+    dif = [n for n in ast.walk(rn) if isinstance(n, ast.Call) and src(n.func) == 'self.pixeldict[d].difference_update']
+    if len(dif) != 1 or src(dif[0].args[0]) != 'nset':
+        raise TranslateError("_renorm: expected self.pixeldict[d].difference_update(nset)")
+    rb = strip_doc(rn.body)
+    if not (src(rb[0]) == 'self.demoted = set()' and src(rb[1]) == 'self._demote_all()'
+            and src(rb[-2]) == 'self.demoted = set()'):
+        raise TranslateError("_renorm: expected reset; demote; ...; reset")
+
+    # --- union: common levels, degrade expression
+    un = R('union')
+    fors = [n for n in un.body if isinstance(n, ast.For)]
+    if len(fors) != 1:
+        raise TranslateError("union: expected one top-level loop")
+    ra = _range_args(fors[0].iter)
+    if src(ra[0]) != '1' or src(ra[1]) != 'min(self.maxdepth, other.maxdepth) + 1':
+        raise TranslateError("union: common-level loop range")
+    if src(fors[0].body[0]) != 'self.add_pixels(other.pixeldict[d], d)':
+        raise TranslateError("union: common-level body")
+    deg = tr.expr(one_assign(un, 'pp').value)
+    ifs = [n for n in un.body if isinstance(n, ast.If)]
+    if len(ifs) != 2 or src(ifs[0].test) != 'self.maxdepth < other.maxdepth' or src(ifs[1].test) != 'renorm':
+        raise TranslateError("union: structure")
+    f2 = [n for n in ast.walk(ifs[0]) if isinstance(n, ast.For)]
+    ra = _range_args(f2[0].iter)
+    if src(ra[0]) != 'self.maxdepth + 1' or src(ra[1]) != 'other.maxdepth + 1':
+        raise TranslateError("union: finer-level loop range")
+    if not any(isinstance(n, ast.Call) and src(n) == 'self.pixeldict[self.maxdepth].add(pp)' for n in ast.walk(ifs[0])):
+        raise TranslateError("union: degraded pixel not added at maxdepth")
+
+    # --- get_area range, _uniq range and code
+    ga = R('get_area')
+    fors = [n for n in ast.walk(ga) if isinstance(n, ast.For)]
+    ra = _range_args(fors[0].iter)
+    area_lo, area_hi = tr.expr(ra[0]), tr.expr(ra[1])
+    uq = R('_uniq')
+    fors = [n for n in ast.walk(uq) if isinstance(n, ast.For)]
+    if len(fors) != 1:
+        raise TranslateError("_uniq: loop")
+    ra = _range_args(fors[0].iter)
+    uq_lo, uq_hi = tr.expr(ra[0]), tr.expr(ra[1])
+    lam = [n for n in ast.walk(uq) if isinstance(n, ast.Lambda)]
+    if len(lam) != 1 or [a.arg for a in lam[0].args.args] != ['x']:
+        raise TranslateError("_uniq: lambda")
+    code = tr.expr(lam[0].body)
+    mp = [n for n in ast.walk(uq) if isinstance(n, ast.Call) and src(n.func) == 'map']
+    if len(mp) != 1 or src(mp[0].args[1]) != 'self.pixeldict[d]':
+        raise TranslateError("_uniq: map over self.pixeldict[d]")
+    # MOCORDER written by write_fits
+    wf = R('write_fits')
+    mo = one_assign(wf, "hdulist[1].header['MOCORDER']").value
+    if not (isinstance(mo, ast.Tuple)):
+        raise TranslateError("write_fits: MOCORDER")
+    mocorder = tr.expr(mo.elts[0])
+    return HEADER_Z + f"""Import ListNotations.
+
+(* regions.Region: arithmetic leaves and shape constants *)
+Definition add_pixels_resets_cache : bool := {add_resets}.
+Definition demote_lo : Z := {dem_lo}.
+Definition demote_hi (maxdepth : Z) : Z := {dem_hi}.
+Definition children (p : Z) : list Z := {children}.
+Definition renorm_from (maxdepth : Z) : Z := {ren_from}.
+Definition renorm_stop : Z := {ren_stop}.
+Definition sibling_test (p : Z) : bool := {sib_test}.
+Definition sibling_members (p : Z) : list Z := [{'; '.join(members)}].
+Definition siblings (p : Z) : list Z := {siblings}.
+Definition parent (p : Z) : Z := {parent}.
+Definition degrade (p d maxdepth : Z) : Z := {deg}.
+Definition area_lo : Z := {area_lo}.
+Definition area_hi (maxdepth : Z) : Z := {area_hi}.
+Definition uniq_lo : Z := {uq_lo}.
+Definition uniq_hi (maxdepth : Z) : Z := {uq_hi}.
+Definition uniq_code (d x : Z) : Z := {code}.
+Definition mocorder (maxdepth : Z) : Z := {mocorder}.
+"""
